@@ -87,6 +87,9 @@ var (
 	parityT3 = []int{2899, 3260, 7214}
 )
 
+// extraCfgs: wallet configurations selected by the leading-zero scans (scan.go).
+var extraCfgs []*cfg
+
 type seedKind struct {
 	name   string
 	pass   []byte
@@ -228,6 +231,10 @@ func configs(thorough bool) []*cfg {
 	}
 	for i, n := range parityT3 {
 		add(mkCfg(3, nets[i%4], atypes[(i+1)%5], "", 1, 0, 0, seedKind{"parity", []byte(fmt.Sprint("c14 parity t3 ", n)), ""}, 1, 0))
+	}
+	// configurations through derived values with leading zero bytes (built in main from the scans)
+	for _, c := range extraCfgs {
+		add(c)
 	}
 	// invalid user mnemonics must be refused (bip39=-1)
 	good := strings.Fields(string(userMnemonic(12, 0)))
@@ -575,6 +582,100 @@ func main() {
 		})
 	}
 
+	// ---- derived values with leading zero bytes (scan.go): deterministic scans with the reference
+	scanN, cap1, pubxN, pubxChunk := uint32(600000), 3, uint32(640), uint32(40)
+	if r.Thorough() {
+		scanN, cap1, pubxN, pubxChunk = 4000000, 40, 8192, 128
+	}
+	scanStart := time.Now()
+	var scans []*scanResult
+	scanSummary := map[string]interface{}{}
+	nSpecial := 0
+	for _, sp := range scanSpecs {
+		res := scanChildren(sp, scanN, cap1)
+		scans = append(scans, res)
+		name := fmt.Sprintf("seed %q parent %s hardened=%v indexes 0..%d", sp.seed, sp.parent, sp.hardened, scanN-1)
+		scanSummary[name] = map[string]int{"private_key>=1": res.nKey1, "private_key>=2": res.nKey2, "private_key>=3": res.nKey3,
+			"chain_code>=1": res.nChain1, "chain_code>=2": res.nChain2, "IL>=1": res.nIL1, "IL>=2": res.nIL2, "selected_for_testing": len(res.nodes)}
+		if res.nKey2 == 0 || res.nChain2 == 0 {
+			ev.HarnessError("scan %s found no child with two leading zero bytes (key %d, chain %d)", name, res.nKey2, res.nChain2)
+		}
+		for _, nd := range res.nodes {
+			nd := nd
+			nSpecial++
+			if nd.zKey >= 2 {
+				samples.Add(map[string]interface{}{"family": "hd leading zero node", "seed": sp.seed, "path": refhd.PathString(nd.path()), "why": nd.why})
+			}
+			thorough := r.Thorough()
+			units = append(units, func(st *stats) {
+				st.counts["leading_zero_nodes:"+nd.why]++
+				evalSpecial(st, nd, thorough)
+			})
+		}
+	}
+	for from := uint32(0); from < pubxN; from += pubxChunk {
+		from := from
+		units = append(units, func(st *stats) { scanPubX(st, scanSpecs[0], from, from+pubxChunk) })
+	}
+	// wallet configurations through such nodes (type 4, raw seed = the scan seed)
+	{
+		k := 0
+		addC := func(seed string, path string, keycnt int) {
+			extraCfgs = append(extraCfgs, mkCfg(4, nets[k%4], atypes[k%5], path, 1, 0, 0, seedKind{"leading-zero", []byte(seed), ""}, keycnt, 0))
+			k++
+		}
+		for _, res := range scans {
+			nk, nc := 0, 0
+			for _, nd := range res.nodes {
+				switch {
+				case nd.zKey >= 2 && (nk < 2 || r.Thorough()):
+					nk++
+					addC(res.spec.seed, pathWithIndex(nd.parent, nd.index), 2)             // the node is a listed key
+					addC(res.spec.seed, pathWithIndex(nd.parent, nd.index, 0x80000000), 2) // keys are hardened children of the node
+					addC(res.spec.seed, pathWithIndex(nd.parent, nd.index, 5), 2)          // keys are non-hardened children
+					if nd.index&0x7fffffff > 0 {
+						addC(res.spec.seed, pathWithIndex(nd.parent, nd.index-1), 3) // the node is the second listed key
+					}
+				case nd.zChain >= 2 && (nc < 1 || r.Thorough()):
+					nc++
+					addC(res.spec.seed, pathWithIndex(nd.parent, nd.index, 0x80000000), 2)
+					addC(res.spec.seed, pathWithIndex(nd.parent, nd.index, 0), 2)
+				}
+			}
+		}
+		nm := 2
+		if r.Thorough() {
+			nm = 8
+		}
+		mz := masterZeroSeeds(2000000, nm)
+		if len(mz) < nm {
+			ev.HarnessError("master scan found only %d seeds", len(mz))
+		}
+		for _, s := range mz {
+			s := s
+			addC(s, "m/0'", 2)
+			addC(s, "m/0/1", 2)
+			units = append(units, func(st *stats) { st.counts["leading_zero_master_seeds_tested"]++; walkTree(st, []byte(s), false, 1) })
+		}
+		t3 := type3ZeroPasswords(2000000, nm+1)
+		for _, s := range t3 {
+			extraCfgs = append(extraCfgs, mkCfg(3, nets[k%4], atypes[k%5], "", 1, 0, 0, seedKind{"leading-zero-t3", []byte(s), ""}, 3, 0))
+			k++
+		}
+		nb := 0
+		for _, words := range []int{12, 18, 24} {
+			for _, s := range bip39ZeroPasswords(words, 2000000, nm/2) {
+				extraCfgs = append(extraCfgs, mkCfg(4, nets[k%4], atypes[k%5], "m/0'", 1, words, 0, seedKind{"leading-zero-bip39", []byte(s), ""}, 1, 0))
+				k++
+				nb++
+			}
+		}
+		scanSummary["wallet configurations through leading-zero values"] = map[string]int{"hd_nodes": len(extraCfgs) - len(t3) - nb, "type3_passwords": len(t3), "bip39_entropy_passwords": nb, "master_seeds": len(mz)}
+	}
+	scanSummary["special_nodes_selected"] = nSpecial
+	scanSummary["scan_wall_seconds"] = float64(int(time.Since(scanStart).Seconds()*100)) / 100
+	fmt.Fprintf(os.Stderr, "c14: leading-zero scans done in %v: %d special nodes, %d extra configurations\n", time.Since(scanStart), nSpecial, len(extraCfgs))
+
 	libUnits := len(units)
 	// ================= (ii) binary =================
 	base := ev.Scratch("c14")
@@ -649,6 +750,7 @@ func main() {
 		"not_judged_observations":             total.notes,
 		"hd_seeds":                            len(seeds),
 		"hd_index_set":                        idxSet,
+		"leading_zero_scans":                  scanSummary,
 		"xkey_mutation_seeds":                 len(xkeys),
 		"wallet_configurations":               len(cfgs),
 		"wallet_configurations_per_dimension": perDim,
@@ -663,6 +765,7 @@ func main() {
 		"address forms per atype as documented by the wallet: p2kh; segwit = P2SH(P2WPKH); bech32 = witness v0 of HASH160(pubkey); tap = witness v1 whose program is the x-only public key itself (no BIP341 tweak - the wallet signs key-path spends with the untweaked key, see wallet/signtx.go; judged against that convention); pks = hex public key. Litecoin: versions 48/50/176; gocoin prints bech32 forms with the bc/tb prefix in Litecoin mode - only the witness program is judged there (prefix recorded)",
 		"type 3 (gocoin-specific chain) is judged on determinism, address <-> exported key agreement, distinct keys, WIF re-import (library and .others file) only",
 		"determinism: every configuration is listed twice, once with the password in .secret and once through -stdin (through .secret twice when stdin carries the BIP39 passphrase); wallet.txt must be byte-identical",
+		"family 'derived values with leading zero bytes': child indexes under fixed parents are scanned with the reference (HMAC-SHA512 + modular addition per index, bounds in leading_zero_scans) and every child whose private key / chain code / IL has >= 2 leading zero bytes (plus the first few with one, plus children whose public X starts with a zero byte from a full reference scan) is derived with gocoin (DeriveNextPrivate/DeriveNextPublic on the exact operands, Child, Pub().Child, serialisation, re-import, hardened and non-hardened grandchildren) and driven through the wallet binary (hdpath ending in, and passing through, such a node). Passwords for type-3 / bip39=N wallets whose first key / entropy has leading zero bytes are picked with the pinned (not judged) formulas and judged like every other configuration",
 		"BIP32 'invalid child' cases (IL >= n, zero key; probability 2^-127) are not reachable by enumeration and not exercised",
 		"StringWallet: only checksum / alphabet / length errors are judged (the property's re-import clause); BIP32 content rules (key prefix, key range, depth-0 metadata) are recorded in not_judged_observations",
 	})
